@@ -21,14 +21,20 @@ META = {
 }
 
 SRC = os.path.join(V.VERIF, "harness/C19/impl.cc")
-GKINDS = ["H", "M", "C", "W", "S", "T", "N", "X", "h", "m", "c", "w", "n"]   # lower case: constructor called without the `active` argument
+GKINDS = ["H", "M", "C", "W", "S", "T", "N", "X", "R", "D", "h", "m", "c", "w", "n"]   # lower case: constructor called without the `active` argument
 OPS_M = [(op, p) for op in ["isend", "irecv", "ibcast", "igather", "iscatter", "iallgather", "iallreduce", "iallreduce1"] for p in "ijvw"] + \
-        [(op, p) for op in ["isend", "irecv", "ibcast", "iallreduce1"] for p in "qL"] + [(op, "F") for op in ["isend", "irecv", "ibcast"]] + \
+        [(op, p) for op in ["isend", "irecv", "ibcast", "iallreduce1"] for p in "qLl"] + [(op, p) for op in ["isend", "irecv", "ibcast"] for p in "Fs"] + \
+        [("isend", "e"), ("ibcast", "e")] + \
         [("ibarrier", "0"), ("default", "i"), ("default", "v"), ("default", "0"), ("mkvalid", "i"), ("mkvalid", "v"), ("mkvalid", "0"),
          ("efuture", "i"), ("efuture", "0")]
 HAS_SEND = ("igather", "iscatter", "iallgather", "iallreduce")            # futures with a send buffer: get_send_data()
 SEND_ORDERS = ["d", "dg", "gd", "vdvg", "rdr", "wdg", "dwv", "gdg"]      # get_send_data at most once (twice is undefined: *nullptr)
 ASSIGN_ORDERS = ["a", "av", "ag", "ga", "wag", "ama", "vagg", "raw"]
+# ready() on the TARGET of a move construction (M) / move assignment into a default-constructed future (A); self move assignment (S)
+TARGET_ORDERS = ["M", "Mg", "MMg", "rMwM", "MgM", "SMg", "S", "SgS", "vSrSg", "wSg"]
+TARGET_ASSIGN_ORDERS = ["A", "Ag", "AMg", "rAwA", "SAg"]
+RENEW_ORDERS = ["gn", "gng", "gnvrwg", "wgngg", "gnSg", "gnMg"]           # the consumed future object receives a new operation
+COLLECTIVES = ("ibcast", "igather", "iscatter", "iallgather", "iallreduce", "iallreduce1", "ibarrier")
 OPS_N = [("ibcast", "i"), ("ibcast", "j"), ("ibcast", "v"), ("ibcast", "w"), ("igather", "i"), ("iscatter", "i"), ("iallgather", "i"), ("ibcast", "q"),
          ("iallreduce1", "i"), ("iallreduce1", "j"), ("iallreduce1", "v"), ("iallreduce1", "w"), ("iallreduce", "i"), ("iallreduce", "j"), ("iallreduce", "v"), ("iallreduce", "w"), ("ibarrier", "0"),
          ("default", "i"), ("default", "0")]
@@ -120,6 +126,10 @@ def gen_guard_composed(ctx, P):
         for col in cols:
             for outs in (progs if (P <= 2 or (not q and P <= 3 and S <= 2)) else rng.sample(progs, min(per, len(progs)))):
                 cases.append("N %d %s %d %s %s" % (P, col, S, ",".join(outs), ",".join(script_of(True, o) for o in outs)))
+    for S in (1, 2):      # inner and outer guard on the SAME communicator
+        progs = [pr for pr in guard_programs(P, S, rng) if len(pr[0]) == S]
+        for outs in (progs if (q and P <= 2) or (not q and P <= 3) else rng.sample(progs, min(30 if q else 300, len(progs)))):
+            cases.append("O %d %s %d %s %s" % (P, "0" * P, S, ",".join(outs), ",".join(script_of(True, o) for o in outs)))
     return cases
 
 
@@ -168,7 +178,7 @@ def gen_future(ctx, P):
     def add(fam, op, pay, wrap, late, order):
         salt[0] = (salt[0] + 1) % 90
         s = salt[0]
-        root = s % (P if fam == "M" else 1)
+        root = s % (P if fam in "MR" else 1)
         if late == "auto":
             if op in ("ibcast", "iscatter"):
                 late = root
@@ -188,7 +198,7 @@ def gen_future(ctx, P):
         for o in sorted(orders):
             add("M", op, pay, "e" if rng.random() < 0.25 else "r", -1, o)
         # delayed start of one rank: `ready` must be false on the dependent ranks before it
-        if P >= 2 and op not in ("default", "isend", "mkvalid", "efuture"):
+        if P >= 2 and op not in ("default", "isend", "mkvalid", "efuture") and pay != "e":   # (an empty message depends on nobody)
             lo = ["r", "rr", "rvr", "rw", "rg", "rrg", "vrwg", "rgg", "rwr", "vrvg", "rrwr", "rgv"]
             for o in (rng.sample(lo, 5) if q else lo):
                 add("M", op, pay, "r", "auto", o)
@@ -205,6 +215,40 @@ def gen_future(ctx, P):
         if op in HAS_SEND:
             for o in (rng.sample(SEND_ORDERS, 4) if q else SEND_ORDERS):
                 add("M", op, pay, "e" if False else "r", -1, o)
+    # dimension audit: target of moves, self assignment, re-use of the object, converting wrapper, reversed communicator
+    for (op, pay) in OPS_M:
+        if op == "efuture":
+            continue
+        for o in (rng.sample(TARGET_ORDERS, 3) if q else TARGET_ORDERS):
+            add("M", op, pay, rng.choice("rre"), -1, o)
+        if pay in "iv0qFLlse" and op not in HAS_SEND:
+            for o in (rng.sample(TARGET_ASSIGN_ORDERS, 2) if q else TARGET_ASSIGN_ORDERS):
+                add("M", op, pay, "r", -1, o)
+        if P >= 2 and op not in ("default", "isend", "mkvalid") and pay != "e":
+            for o in (["M", "rMM"] if q else ["M", "rMM", "MrMg", "MMwM"]) + (["A", "MA"] if (pay in "iv0qFLls" and op not in HAS_SEND) else []):
+                add("M", op, pay, "r", "auto", o)      # before the late rank starts the TARGET must not be ready either
+        if op in COLLECTIVES and not (op == "iallreduce1" and pay in "jw"):   # (in place by reference: the caller's variable already holds the first result)
+            for o in (rng.sample(RENEW_ORDERS, 2) if q else RENEW_ORDERS):
+                add("M", op, pay, rng.choice("rre"), -1, o)
+        if pay in "jw0":
+            for o in (rng.sample(short, 3) if q else rng.sample(short, 20)) + ["gg", "vgv", "mg", "ag"]:
+                add("M", op, pay, "c", -1, o)
+    for (op, pay) in [(op, p) for op in ["isend", "irecv", "ibcast", "igather", "iscatter", "iallgather", "iallreduce", "iallreduce1"] for p in "ijvw"] + [("ibarrier", "0")]:
+        orders = set(["vrwgg", "g", "rg", "gg"]) | set(rng.sample(short, 6 if q else 40)) | set(rng.sample(MOVE_ORDERS + TARGET_ORDERS, 2 if q else 8))
+        for o in sorted(orders):
+            add("R", op, pay, "e" if rng.random() < 0.2 else "r", -1, o)
+        if P >= 2 and op != "isend":
+            for o in (["r", "rMg"] if q else ["r", "rr", "rMg", "rw", "vrvg", "MrM"]):
+                add("R", op, pay, "r", "auto", o)
+    if P <= (2 if q else 4):
+        for (op, pay) in OPS_N:
+            if pay not in "jw":
+                # self move assignment of a PseudoFuture holding a std::vector falls under the standard library's "valid but
+                # unspecified" rule for self-move (libstdc++ empties the vector): only scalar results are asked to survive it
+                scalar = pay in "i0" and op not in ("igather", "iallgather")
+                pool = [o for o in TARGET_ORDERS + RENEW_ORDERS if scalar or "S" not in o]
+                for o in (rng.sample(pool, 3) if q else pool):
+                    add("N", op, pay, rng.choice("rre"), -1, o)
     # documented refusals at the start of the operation
     for o in ("v", "g"):
         add("M", "irecv", "z", "r", -1, o)
@@ -239,7 +283,7 @@ def read_rank_outputs(prefix, P, sep):
 
 def run_mpi(ctx, exe, P, cases, tag, alarm=20, budget=900, env_extra=None):
     """One launch per batch; every rank writes one line per case to its own file.  A launch that stops early (crash, watchdog) is
-    attributed to the first case not completed by all ranks; that case is re-run ONCE ALONE with a 3x watchdog before it is
+    attributed to the first case not completed by all ranks; that case is re-run ONCE ALONE with a 10x watchdog before it is
     recorded as HANG/CRASH (a deadlock must reproduce; machine load must not raise an alarm)."""
     res, start, restarts = [], 0, 0
     t_end = time.time() + budget
@@ -250,7 +294,7 @@ def run_mpi(ctx, exe, P, cases, tag, alarm=20, budget=900, env_extra=None):
         for r in range(P):
             if os.path.exists("%s.%d" % (of, r)):
                 os.remove("%s.%d" % (of, r))
-        env = {"C19_ALARM": str(al)}
+        env = {"C19_ALARM": str(al), "OMPI_MCA_mpi_yield_when_idle": "1"}    # waiting ranks yield the CPU (shared, often overloaded machine)
         env.update(env_extra or {})
         rc, out = V.mpirun(P, exe, [cf, of], timeout=to, env=env)
         return rc, out, read_rank_outputs(of, P, lambda i: " | " if cs[i].startswith("F") else "|")
@@ -264,7 +308,7 @@ def run_mpi(ctx, exe, P, cases, tag, alarm=20, budget=900, env_extra=None):
         res.extend(lines); start += len(lines)
         if start >= len(cases):
             break
-        rc1, out1, l1 = launch([cases[start]], "%s.P%d.single" % (tag, P), alarm * 3, alarm * 3 + 60)
+        rc1, out1, l1 = launch([cases[start]], "%s.P%d.single" % (tag, P), alarm * 10, alarm * 10 + 120)   # 10x budget (DESIGN 2.4): load is not a verdict
         if rc1 == 0 and l1:
             res.append(l1[0])
             ctx.notes.append("case re-run alone succeeded after an interrupted launch (load?): %s" % cases[start])
@@ -373,10 +417,10 @@ def evaluate(ctx, cases, io, mo, stats):
         if a.startswith("NOT-RUN"):
             stats["not_run"] = stats.get("not_run", 0) + 1
             continue
-        if t[0] in "GQN":
+        if t[0] in "GQNO":
             stats["guard"] += 1
             verdict = guard_oracle(c, a, s)
-            gk = {"G": t[2], "Q": "seq:" + t[2], "N": "nested"}[t[0]]
+            gk = {"G": t[2], "Q": "seq:" + t[2], "N": "nested", "O": "nested-same-comm"}[t[0]]
             if verdict is not None:
                 stats["oracle_rejections"] += 1
                 ctx.violation("C19:guard:%s:%s" % (gk, verdict[0]),
@@ -458,10 +502,10 @@ def run(ctx):
         cases_by_P[P] = cases
         for c in cases:
             t = c.split()
-            key = ("guard:" + t[2] + ":" + t[5] if t[0] == "G" else "guard-sequential:" + t[2] if t[0] == "Q" else "guard-nested:S%s" % t[3] if t[0] == "N"
+            key = ("guard:" + t[2] + ":" + t[5] if t[0] == "G" else "guard-sequential:" + t[2] if t[0] == "Q" else "guard-nested:S%s" % t[3] if t[0] in "NO"
                    else "future:%s:%s:%s" % (t[2], t[3], t[4]))
             dist[key] = dist.get(key, 0) + 1
-            if t[0] in "GQN":
+            if t[0] in "GQNO":
                 if re.search(r"[tf]", t[-1]):
                     nontrivial.add(c)
             elif len(t[9]) >= 2:
@@ -530,7 +574,7 @@ def replay(ctx, path):
     mo = run_model(ctx, model, [case], impl=io, tag="replay.model")
     m, s = mo[0]
     print("case  :", case); print("impl  :", io[0]); print("model :", m)
-    if case[0] in "GQN":
+    if case[0] in "GQNO":
         v = guard_oracle(case, io[0], s)
         print("spec  :", s); print("oracle:", v[1] if v else "accepts")
         return 1 if v else 0
